@@ -264,4 +264,28 @@ example :
   · intro a b c h1 h2; simp only [decide_eq_true_eq] at *; omega
   · intro a b; simp only [Bool.or_eq_true, decide_eq_true_eq]; omega
 
+theorem flatten_map_flatMap {α β : Type} (f : α → List β) (chunks : List (List α)) :
+    (chunks.map (fun c => c.flatMap f)).flatten = chunks.flatten.flatMap f := by
+  induction chunks with
+  | nil => rfl
+  | cons c cs ih => simp only [List.map_cons, List.flatten_cons, List.flatMap_append, ih]
+
+/-- parallel hash join (parallel build, chunked probe) = sequential hash join, for every
+chunking of both inputs -/
+theorem C04_parHashJoin (kl kr : Row → Value) (lchunks rchunks : List (List Row)) :
+    parHashJoin kl kr lchunks rchunks = hashJoinInner kl kr lchunks.flatten rchunks.flatten := by
+  unfold parHashJoin hashJoinInner
+  split
+  · simp only [flatten_map_flatMap, C04_buildHashPar]
+  · simp only [flatten_map_flatMap, C04_buildHashPar]
+
+/-- semi and anti joins with the parallel build = their sequential versions -/
+theorem C04_hashSemiPar (kl kr : Row → Value) (left : List Row) (rchunks : List (List Row)) :
+    hashSemiPar kl kr left rchunks = hashSemi kl kr left rchunks.flatten := by
+  simp only [hashSemiPar, hashSemi, C04_buildHashPar]
+
+theorem C04_hashAntiPar (kl kr : Row → Value) (left : List Row) (rchunks : List (List Row)) :
+    hashAntiPar kl kr left rchunks = hashAnti kl kr left rchunks.flatten := by
+  simp only [hashAntiPar, hashAnti, C04_buildHashPar]
+
 end VibeProof.C04
